@@ -147,8 +147,18 @@ def parse_fragment(fn):
     first = [i for i, s in enumerate(b) if isinstance(s, ast.If) and "isinstance(value, dt.date)" in up(s.test)]
     if len(first) != 1:
         raise TranslateError("stix2/utils.py:%s: the isinstance(value, dt.date) statement was not found" % name)
-    frag = b[first[0] + 1:len(b) - 1]
-    return tr_block(name, frag, "ts"), up(last.value)
+    frag = list(b[first[0] + 1:len(b) - 1])
+    # an optional prelude that moves a value whose UTC offset has a sub-second part to UTC before the truncation:
+    #   offset = ts.utcoffset();  if offset is not None and offset.microseconds: ts = ts.astimezone(pytz.utc)
+    utc_first = False
+    if len(frag) >= 2 and isinstance(frag[0], ast.Assign) and up(frag[0].value) == "ts.utcoffset()" and isinstance(frag[1], ast.If):
+        var = up(frag[0].targets[0])
+        t = frag[1]
+        if up(t.test) == "%s is not None and %s.microseconds" % (var, var) and len(t.body) == 1 and not t.orelse \
+                and up(t.body[0]) == "ts = ts.astimezone(pytz.utc)":
+            utc_first = True
+            frag = frag[2:]
+    return tr_block(name, frag, "ts"), up(last.value), utc_first
 
 
 def coq_str(s):
@@ -166,7 +176,7 @@ def translate(repo, py=None, verif=None):
         if need not in fns:
             raise TranslateError("stix2/utils.py: function %s not found" % need)
     fprog, attach, stamp, zoned = format_fragment(fns["format_datetime"])
-    pprog, ret = parse_fragment(fns["parse_into_datetime"])
+    pprog, ret, utc_first = parse_fragment(fns["parse_into_datetime"])
     text = """(* GENERATED by translators/tr_timestamp_src.py from the source text of stix2/utils.py of the repository
    under check -- do not edit *)
 From Coq Require Import ZArith NArith List String.
@@ -186,5 +196,7 @@ Definition src_format_attach : string := %s.
 Definition src_parse_prog : list stmt :=
   %s.
 Definition src_parse_return : string := %s.
-""" % (zoned, fprog, coq_str(stamp), coq_str(attach), pprog, coq_str(ret))
-    return text, {"format": fprog, "parse": pprog, "attach": attach, "stamp": stamp}
+(* a value whose UTC offset has a sub-second part is moved to UTC before the truncation *)
+Definition src_parse_subsecond_utc_first : bool := %s.
+""" % (zoned, fprog, coq_str(stamp), coq_str(attach), pprog, coq_str(ret), "true" if utc_first else "false")
+    return text, {"format": fprog, "parse": pprog, "attach": attach, "stamp": stamp, "utc_first": utc_first}
